@@ -51,3 +51,36 @@ Example C35_nonvacuous :
   tacc (thr a5 (nthr a4)) = [CV 324%N; CV 74%N] /\ tacc (thr b 0) = tacc (thr a5 (nthr a4)) /\
   map (nexec a5) [0; 1; 2] = [1; 1; 1] /\ nexec a3 2 = 1.
 Proof. vm_compute. repeat split; try reflexivity; eexists; reflexivity. Qed.
+
+(* only the inputs the requested queries transitively read matter: P holds of the requested queries and is
+   closed under their dependencies on A's current inputs; outside P the two executors' inputs may differ.  So an
+   edit to a file that no requested query reads changes no result, and batch compilation of the read part of the
+   workspace alone gives what the long-lived executor returns *)
+Theorem C35_incremental_eq_batch_local : forall w, (forall k, wpanic w k = None) -> wf_world w ->
+  forall rk, (forall i k d, In d (flatd w i k) -> rk d < rk k) ->
+  forall parA parB inputsA inputsB sA sB idA idB ks mA mB (P : key -> Prop),
+  reach w parA inputsA sA -> reach w parB inputsB sB ->
+  (forall k, P k -> inp sB k = inp sA k /\ forall d, In d (flatd w (inp sA k) k) -> P d) ->
+  (forall k, In k ks -> P k) ->
+  idA < nthr sA -> tkey (thr sA idA) = None -> tpc (thr sA idA) = PRelease mA -> groups w sA idA = [ks] ->
+  idB < nthr sB -> tkey (thr sB idB) = None -> tpc (thr sB idB) = PRelease mB -> groups w sB idB = [ks] ->
+  tacc (thr sA idA) = tacc (thr sB idB).
+Proof. exact incremental_eq_batch_local. Qed.
+Print Assumptions C35_incremental_eq_batch_local.
+
+(* non-vacuity: in C35_w query 1 reads only {1, 2}.  Executor A has the history of C35_nonvacuous; executor B is new
+   and its input for key 0 (outside the closure of [1]) differs from A's.  Run [1] returns the same on both, and
+   P := (k = 1 \/ k = 2) meets the closure hypothesis on A's inputs *)
+Example C35_local_nonvacuous :
+  let a1 := drive C35_w 300 (start_run (init 1 (fun k => S k)) [0]) in
+  let a2 := evict C35_w (with_inputs a1 (set_inputs (inp a1) [2] [10])) [2] in
+  let a3 := C35_until_release a2 [1] in
+  let b := C35_until_release (init 2 (set_inputs (inp a2) [0] [99])) [1] in
+  (exists m, tpc (thr a3 (nthr a2)) = PRelease m) /\ (exists m, tpc (thr b 0) = PRelease m) /\
+  inp b 0 <> inp a3 0 /\ tacc (thr b 0) = tacc (thr a3 (nthr a2)) /\
+  (forall k, (k = 1 \/ k = 2) -> inp b k = inp a3 k /\ forall d, In d (flatd C35_w (inp a3 k) k) -> d = 1 \/ d = 2).
+Proof.
+  cbv zeta. split; [vm_compute; eexists; reflexivity|]. split; [vm_compute; eexists; reflexivity|].
+  split; [vm_compute; discriminate|]. split; [vm_compute; reflexivity|].
+  intros k [-> | ->]; (split; [vm_compute; reflexivity|]); vm_compute; intros d Hd; intuition.
+Qed.
